@@ -94,8 +94,8 @@ inline std::string cmd_history(Reader &rd, std::map<uint32_t, std::vector<uint8_
                 emit("{" + shape_json(r) + "}");
                 break; }
             case 2: { unsigned i = rd.u16(); if (i < segs.size() && segs[i].seg) { gr_seg_destroy(segs[i].seg); segs[i].seg = nullptr; } break; }
-            case 3: { float ppm = rd.f32(); fnts.push_back(gr_make_font(ppm, face)); break; }
-            case 4: { unsigned i = rd.u16(); bool used = false; if (i < fnts.size() && fnts[i]) { for (auto &h : segs) if (h.seg && h.font == fnts[i]) used = true; if (!used) { gr_font_destroy(fnts[i]); fnts[i] = nullptr; } } break; }
+            case 3: { float ppm = rd.f32(); fnts.push_back(make_any_font(ppm, face)); break; }
+            case 4: { unsigned i = rd.u16(); bool used = false; if (i < fnts.size() && fnts[i]) { for (auto &h : segs) if (h.seg && h.font == fnts[i]) used = true; if (!used) { destroy_any_font(fnts[i]); fnts[i] = nullptr; } } break; }
             case 5: { uint32_t tag = rd.u32(); fvs.push_back(gr_face_featureval_for_lang(face, tag)); break; }
             case 6: { unsigned i = rd.u16(); fvs.push_back(i < fvs.size() && fvs[i] ? gr_featureval_clone(fvs[i]) : gr_featureval_clone(nullptr)); break; }
             case 7: {
@@ -152,7 +152,7 @@ inline std::string cmd_history(Reader &rd, std::map<uint32_t, std::vector<uint8_
         // orderly teardown: segments, feature values, fonts, then the face
         for (auto &h : segs) if (h.seg) gr_seg_destroy(h.seg);
         for (auto *v : fvs) if (v) gr_featureval_destroy(v);
-        for (auto *f : fnts) if (f) gr_font_destroy(f);
+        for (auto *f : fnts) if (f) destroy_any_font(f);
         fb.destroy();
         if (fb.mf) {
             const MemFace &m = *fb.mf;
